@@ -474,6 +474,12 @@ func genC16(tier, out string, sum *Summary) {
 			}
 		}
 	}
+	// one value from every source into every consumer (families.go)
+	runValueSources(sum, "source-independence", 9, func(expr string, doc any, o Obs) {
+		id++
+		sh.Add(fmt.Sprintf("BC %d %s %s %s %s", id, hx(expr), coqValue(doc), hasEnumText(expr), coqObs(o)))
+		sum.Index[strconv.Itoa(id)] = map[string]any{"expr": expr, "doc": toJSON(doc), "observed": obsJSON(o)}
+	})
 	// numbers between backticks in every spelling, bare and padded with the white space JSON allows on either
 	// side, alone and inside containers: the value, and the digits as to_string shows them
 	for _, num := range []string{"0", "-0", "1", "-1", "7", "10", "1.0", "1.50", "-0.10e+2", "1e2", "1E-2", "15e-1", "0.000", "123456789012345678901234567890.5", "1e400", "-2.5e-3", "9223372036854775808"} {
